@@ -6,8 +6,33 @@ COMMON_TRUSTED = [
     'extraction tool /verif/tools/extract.py (text surgery; byte-for-byte self-check of every extracted span on every run)',
     'ENV-1: no allocation/slice exceeds 2^56 elements; ENV-2: usize is 64 bit',
 ]
+KANI_TRUSTED = [
+    'Kani 0.68 / CBMC 6.11 on the real compiled crate; unwinding assertions on',
+    'backtrace crate replaced by a no-op stub under Kani (diagnostics only)',
+]
+BITS_TRUSTED = ['R2 wrapper verif_vec_extend_repeat (Vec::extend(repeat(z).take(n)) appends n copies of z)',
+                'R16: `&mut vec[range]` == `&mut vec.as_mut_slice()[range]` (std definition)',
+                'R14: tail expressions let-bound so that ghost code can follow a call (pure insertion)',
+                'stand-ins for Backtrace / FromUtf8Error payload types of ErrorKind']
+PER_TRUSTED = BITS_TRUSTED + [
+    'R1 wrappers: to_be_bytes / from_be_bytes of u64 and i64 produce / consume the big-endian bytes of the two\'s complement bit pattern',
+    'assume_specification: i64::is_negative / leading_zeros / leading_ones in terms of vstd u64_leading_zeros',
+    'R15: size_of::<u64>() / size_of::<i64>() == 8',
+    'X.691 (08/2015) transcription in contracts/prelude/x691.rs (the oracle)',
+]
 
 U_BITS = {'spec': 'bits.spec'}
+U_BITS_DEP = {'spec': 'bits.spec', 'dependency': True}
+U_PER = {'spec': 'per.spec'}
+U_PER_DEP = {'spec': 'per.spec', 'dependency': True}
+U_LEMMAS = {'spec': 'lemmas.spec', 'dependency': True}
+
+PER_ASSUMPTIONS = [
+    'trait contracts of BitRead/BitWrite are assumed for the generic T in unit per and proved for every implementation in unit bits',
+    'readers of OCTET/BIT STRING: bounds ordered (lb <= ub) and ub <= usize::MAX/2 (schema constants)',
+    'write_bitstring: offset + len <= usize::MAX/2',
+    'conformance profile (DESIGN.md section 4): a length constraint with ub >= 64K (or only a lower bound) is encoded as constrained number by the code, not in the general form X.691 prescribes; contracts state X.691 equality only inside the profile',
+]
 
 PROPS = {
     'C11': {
@@ -19,15 +44,62 @@ PROPS = {
             'From<(&[u8], usize)> for Bits and the other From impls are not under contract (well-formedness of a fresh Bits is the debug_assert of that constructor)',
             'derive(Default) of BitBuffer replaced by an explicit, verified stand-in impl',
         ],
-        'trusted_base': COMMON_TRUSTED + ['R2 wrapper verif_vec_extend_repeat (Vec::extend(repeat(z).take(n)) appends n copies of z)',
-                                          'R16: `&mut vec[range]` == `&mut vec.as_mut_slice()[range]` (std definition)',
-                                          'stand-ins for Backtrace / FromUtf8Error payload types of ErrorKind'],
+        'trusted_base': COMMON_TRUSTED + BITS_TRUSTED,
         'not_under_contract': ['impl From<&[u8]> / From<(&[u8], usize)> / From<&BitBuffer> for Bits', 'impl From<BitBuffer> for Vec<u8>', 'impl From<Vec<u8>> for BitBuffer'],
         'explanation': 'Every BitRead/BitWrite method of (&[u8],&mut usize), (&mut [u8],&mut usize), BitBuffer and Bits, bit_string_copy and '
                        'bit_string_copy_bulked are verified by Verus against the naive bit-vector contract (copied/wrote: exactly the n destination bits '
                        'change to the source bits, everything else unchanged, cursor += n, Err iff too short, Err leaves everything untouched), for all '
                        'lengths, offsets and positions, plus the tight-length/zero-padding invariant of BitBuffer. Operation histories follow by induction '
                        'over the abstract view since every operation is specified completely on it.',
+    },
+    'C10': {
+        'verus': [U_PER, U_BITS_DEP],
+        'kani_thorough': [('per_cwn', 900, True), ('per_nnbi_constrained', 900, True), ('per_semi', 900, True), ('per_nsnnwn', 900, True),
+                          ('per_uwn', 900, True), ('per_2c', 900, True), ('per_length_determinant', 1200, True), ('per_index', 900, True)],
+        'assumptions': PER_ASSUMPTIONS + [
+            'readers of 2\'s-complement / unconstrained whole numbers, OCTET STRING and BIT STRING carry the safety contract and exact bit consumption in Verus; '
+            'their value round trip is discharged by the complete Kani harnesses per_2c / per_uwn (numbers) and is not yet under a Verus contract for the strings',
+        ],
+        'trusted_base': COMMON_TRUSTED + PER_TRUSTED + KANI_TRUSTED,
+        'explanation': 'All 13 PackedWrite methods are verified against X.691 spec functions (x691_cwn, x691_semi, x691_nsnnwn, x691_uwn, x691_2c, x691_len*, '
+                       'x691_index, x691_octets, x691_bitstr incl. 16K fragmentation for every length): Ok <=> admissible arguments (and room), written bits == spec, '
+                       'frame; inadmissible arguments give the documented ErrorKind with nothing written; no overflow, no panic. PackedRead methods are verified '
+                       'against functional decoder specs (dec_*), which are tied to the encoders by spec-level lemmas. The Kani harnesses re-check the fixed-width '
+                       'primitives on the compiled crate for all (lb, ub, value) against an executable oracle (complete: loops bounded by operand width).',
+    },
+    'C06': {
+        'verus': [U_PER, U_BITS_DEP],
+        'kani_quick': [('charset_is_valid', 120, True)],
+        'assumptions': PER_ASSUMPTIONS + ['UperWriter::write_extensible_bit_and_length_or_err and the restricted-string writers (chars() loops) are covered at the PackedWrite level only in this check'],
+        'trusted_base': COMMON_TRUSTED + PER_TRUSTED + KANI_TRUSTED,
+        'explanation': 'For every PackedWrite entry point the post-condition r is Ok ==> admissible(args) is verified (INTEGER range incl. single-value ranges, '
+                       'length determinant bounds, SIZE of octet/bit strings, CHOICE/ENUMERATED index), with the error kind and "nothing written" on rejection; '
+                       'extensible out-of-root values are proved to take the extension form. Charset::is_valid equals the X.680 alphabets for all chars (Kani, complete).',
+    },
+    'C20': {
+        'kani_quick': [('der_length_roundtrip', 300, True), ('der_identifier_roundtrip', 300, True), ('der_boolean', 300, True),
+                       ('der_integer_i64_roundtrip', 300, True), ('der_integer_u64_roundtrip', 300, True), ('der_readers_total', 300, True)],
+        'assumptions': ['std::io::Write for Vec<u8> / std::io::Read for &[u8] as compiled (part of the checked program)'],
+        'trusted_base': KANI_TRUSTED,
+        'explanation': 'Loop-free / width-bounded Kani harnesses over ALL u64 lengths, all four tag classes x number < 64, all octets, all i64/u64: read(write(v)) == v, '
+                       'exact byte consumption; any non-zero octet reads as true. Complete proofs (<= 10 bytes flow, unwinding assertions pass).',
+    },
+    'C17': {
+        'kani_quick': [('proto_varint_roundtrip', 300, True), ('proto_sint64_roundtrip', 300, True), ('proto_sint32_roundtrip', 300, True),
+                       ('proto_uint32_bool_roundtrip', 300, True), ('proto_tag_roundtrip', 300, True), ('proto_sfixed32_roundtrip', 300, True)],
+        'assumptions': ['only the protobuf primitives (ProtoRead/ProtoWrite) are decided; the tag_counter discipline of ProtobufReader/Writer over generated types is not under contract'],
+        'trusted_base': KANI_TRUSTED,
+        'not_under_contract': ['ProtobufWriter / ProtobufReader (Writer/Reader impls, State.tag_counter)', 'SliceOrVec back ends', 'BitVec trailing-length representation'],
+        'explanation': 'varint (byte-exact LEB128, <= 10 bytes), zig-zag sint32/sint64, uint32, bool, tag (field < 2^29, four formats), sfixed32: round trip for ALL values (Kani, complete).',
+    },
+    'C16': {
+        'kani_quick': [('tag_order', 120, True), ('rusttype_universal_tags', 120, True)],
+        'assumptions': ['sort_fields_canonically sorts by (extension?, Tag) with the compiled derive(Ord) verified here; the sort call itself and assign_implicit_tags are not discharged (Kani exhausts memory on Vec<Field>)',
+                        'TagResolver through references/imports and the text emission of read_seq/write_seq are not under contract'],
+        'trusted_base': KANI_TRUSTED,
+        'not_under_contract': ['AsnDefWriter::sort_fields_canonically', 'AsnDefWriter::assign_implicit_tags', 'TagResolver'],
+        'explanation': 'Tag::cmp / partial_cmp / eq of the compiled derive equal the X.680 8.6 order (class UNIVERSAL < APPLICATION < context < PRIVATE, then number) '
+                       'for ALL pairs of tags; RustType::tag() returns the UNIVERSAL tag of each builtin type.',
     },
 }
 
